@@ -295,6 +295,102 @@ impl<'ast, 't> Visit<'ast> for Walk<'t> {
     fn visit_stmt_macro(&mut self, _m: &'ast syn::StmtMacro) {}
 }
 
+/// files whose every call of `Driver::flush` / `AwakeFlag::reset` (any receiver that is a driver / notifier / awake
+/// flag) is listed with what the caller does with the returned "was notified" bit
+const FLUSH_FILES: &[&str] = &[
+    "compio-runtime/src/lib.rs",
+    "compio-driver/src/lib.rs",
+    "compio-driver/src/sys/driver/fusion/mod.rs",
+    "compio-driver/src/sys/driver/iour/mod.rs",
+    "compio-driver/src/sys/driver/iour/notify.rs",
+    "compio-driver/src/sys/driver/poll/mod.rs",
+    "compio-driver/src/sys/driver/mod.rs",
+    "compio-compat/src/lib.rs",
+];
+
+/// is `e` (parentheses, `?`, `.await` peeled) a flush/reset call on a driver-ish receiver? returns the method name
+fn flush_call(e: &syn::Expr) -> Option<String> {
+    match e {
+        syn::Expr::Paren(p) => flush_call(&p.expr),
+        syn::Expr::Try(t) => flush_call(&t.expr),
+        syn::Expr::MethodCall(m) => {
+            let name = m.method.to_string();
+            if name != "flush" && name != "reset" {
+                return None;
+            }
+            let recv = compact(&m.receiver).to_lowercase();
+            if !m.args.is_empty() {
+                return None;
+            }
+            if recv.contains("driver") || recv.contains("notif") || recv.contains("awake") || recv.contains("runtime") || recv == "self.0" {
+                Some(name)
+            } else {
+                None
+            }
+        }
+        _ => None,
+    }
+}
+
+struct FlushSites {
+    func: String,
+    out: Vec<(String, String, String)>,
+}
+
+impl FlushSites {
+    fn site(&mut self, call: String, usage: &str) {
+        self.out.push((self.func.clone(), call, usage.to_string()));
+    }
+}
+
+impl<'ast> Visit<'ast> for FlushSites {
+    fn visit_impl_item_fn(&mut self, f: &'ast syn::ImplItemFn) {
+        let old = std::mem::replace(&mut self.func, f.sig.ident.to_string());
+        syn::visit::visit_impl_item_fn(self, f);
+        self.func = old;
+    }
+
+    fn visit_item_fn(&mut self, f: &'ast syn::ItemFn) {
+        let old = std::mem::replace(&mut self.func, f.sig.ident.to_string());
+        syn::visit::visit_item_fn(self, f);
+        self.func = old;
+    }
+
+    fn visit_stmt(&mut self, st: &'ast syn::Stmt) {
+        match st {
+            // `x.flush();` — the bit is thrown away; `x.flush()` as the value of the block — handed to the caller
+            syn::Stmt::Expr(e, semi) => {
+                if let Some(c) = flush_call(e) {
+                    self.site(c, if semi.is_some() { "discarded" } else { "returned" });
+                    return;
+                }
+            }
+            syn::Stmt::Local(l) => {
+                if let Some(init) = &l.init {
+                    if let Some(c) = flush_call(&init.expr) {
+                        let pat = compact(&l.pat);
+                        self.site(c, if pat == "_" || pat.starts_with('_') { "discarded" } else { "bound" });
+                        return;
+                    }
+                }
+            }
+            _ => {}
+        }
+        syn::visit::visit_stmt(self, st);
+    }
+
+    fn visit_expr_method_call(&mut self, m: &'ast syn::ExprMethodCall) {
+        // any other position: operand of an expression, argument, condition, match arm value ...
+        if let Some(c) = flush_call(&syn::Expr::MethodCall(m.clone())) {
+            self.site(c, "used");
+        }
+        syn::visit::visit_expr_method_call(self, m);
+    }
+
+    fn visit_expr_macro(&mut self, _m: &'ast syn::ExprMacro) {}
+    fn visit_stmt_macro(&mut self, _m: &'ast syn::StmtMacro) {}
+}
+
 fn find_fn<'a>(file: &'a syn::File, t: &Target) -> Option<&'a syn::ImplItemFn> {
     for it in &file.items {
         let syn::Item::Impl(im) = it else { continue };
@@ -360,6 +456,26 @@ pub fn generate(repo: &Path) -> Res<String> {
             s.push_str("]\n\n");
         }
     }
+    // the flush / reset site table
+    writeln!(s, "/-- every call of `flush` / `reset` on a driver, notifier or awake flag in the runtime and driver front ends:").unwrap();
+    writeln!(s, "(file :: function, call, what happens to the returned \"was notified\" bit: returned | used | bound | discarded) -/").unwrap();
+    writeln!(s, "def flushSites : List (String × String × String) := [").unwrap();
+    let mut rows = vec![];
+    for f in FLUSH_FILES {
+        let file = parse_file(&repo.join(f))?;
+        let mut v = FlushSites { func: String::new(), out: vec![] };
+        v.visit_file(&file);
+        for (func, call, usage) in v.out {
+            rows.push((format!("{f}::{func}"), call, usage));
+        }
+    }
+    if rows.is_empty() {
+        return Err("no flush/reset call site found at all".into());
+    }
+    for (i, (a, b, c)) in rows.iter().enumerate() {
+        writeln!(s, "  ({}, {}, {}){}", lean_str(a), lean_str(b), lean_str(c), if i + 1 < rows.len() { "," } else { "" }).unwrap();
+    }
+    s.push_str("]\n\n");
     s.push_str("end Compio.Gen.WakeOrder\n");
     Ok(s)
 }
